@@ -16,7 +16,6 @@ import json
 import os
 import signal
 import multiprocessing as mp
-import re
 import time
 from concurrent.futures import ProcessPoolExecutor
 
@@ -186,7 +185,8 @@ def given_record(g):
     flags = {"20u": 4, "20s": 8}.get(g["ver"], 0x8008 if g["sha"] else 0x0008)
     return {
         "ver": 1 if g["ver"] == "21" else 0, "flags": flags, "pv": g["pv"], "cv": g["cv"], "build": limbs(g["build"]),
-        "ts": [g["ts"] >> 16, g["ts"] & 0xFFFF], "nonceCtr": limbs(int.from_bytes(bytes.fromhex(g["nonce"])[12:], "little")),
+        "ts": [g["ts"] >> 16, g["ts"] & 0xFFFF], "nonceCtr": limbs(int.from_bytes(bytes.fromhex(g["nonce"])[12:], "little")), "nonce": g["nonce"],
+        "keys": hashlib.sha256(bytes.fromhex(g["dek"]) + bytes.fromhex(g["mac"])).hexdigest()[:32],
         "sigLen": CHAIN_TAB[chain][2] if chain != "none" else 0, "chain": CHAIN_TAB[chain][0] if chain != "none" else 0,
         "rootIdx": g["root_idx"], "rkth": rkth,
         "secs": [{"uid": limbs(s["uid"]), "hmacReq": s["hmacReq"], "cmds": [c[0] for c in s["cmds"]]} for s in g["secs"]],
@@ -646,7 +646,7 @@ def canary(v):
     load = next(e for e in evs if e["ev"] == "Cmd" and e["tag"] == 2)
     cert = ev_of(src, "ParseCertBlock")
     given = {"ver": 1, "flags": 8, "pv": [1, 0, 0], "cv": [1, 0, 0], "build": [0, 1], "ts": [633744000 >> 16, 633744000 & 0xFFFF], "nonceCtr": [0, 0],
-             "sigLen": 256, "chain": 1, "rootIdx": 0, "rkth": cert["rkth"],
+             "sigLen": 256, "chain": 1, "rootIdx": 0, "rkth": cert["rkth"], "nonce": evs[0]["nonce"], "keys": ev_of(src, "UnwrapKeyBlob")["keys"],
              "secs": [{"uid": [0, 0], "hmacReq": 1, "cmds": [
                  acmd("vercheck", f=0, n=0x16), acmd("vercheck", f=1, n=15263), acmd("erase", a=0, n=0x2800),
                  acmd("load", a=0, d=bytes(load["payload"])), acmd("ks_from_nv", a=0x12345678, m=3), acmd("ks_to_nv", a=0x12345678, m=3), acmd("reset")]}]}
@@ -662,6 +662,7 @@ def canary(v):
     b3 = variant(bound, "canary-bound-data", lambda t: t["given"]["secs"][0]["cmds"][3]["d"].__setitem__(5, t["given"]["secs"][0]["cmds"][3]["d"][5] ^ 1))
     b4 = variant(bound, "canary-bound-cv", lambda t: t["given"].__setitem__("cv", [4, 5, 6]))
     b5 = variant(bound, "canary-bound-hmacreq", lambda t: t["given"]["secs"][0].__setitem__("hmacReq", 2))
+    b6 = variant(bound, "canary-bound-keys", lambda t: t["given"].__setitem__("keys", "00" * 16))
     # second observer canary
     ref = ref_of(evs)
     pev = [{"ev": "ParseOutcome", "outcome": "returned", "exc": ""}, {"ev": "PField", "name": "product_version", "got": [1, 0, 0]},
@@ -671,7 +672,7 @@ def canary(v):
     pr = mk_trace("canary-parse-raised-clean", "parse", "clean", [{"ev": "ParseOutcome", "outcome": "raised", "exc": "X"}], ref=ref, ver="21")
     pt = mk_trace("canary-parse-raised-tamper", "parse", "tamper", [{"ev": "ParseOutcome", "outcome": "raised", "exc": "X"}], ref=ref, ver="21")
     pd = variant(pb, "canary-parse-tamper-different", lambda t: t.__setitem__("mode", "tamper"))
-    allt = tr + bad + [bound, b2, b3, b4, b5, pg, pb, pr, pt, pd]
+    allt = tr + bad + [bound, b2, b3, b4, b5, b6, pg, pb, pr, pt, pd]
     rej, soft = validate(allt)
     if any(i in soft for i in good_ids):
         raise Machinery(f"canary failed: a golden file of the reference tool fails a soft clause: { {i: soft[i] for i in good_ids if i in soft} }")
@@ -681,7 +682,7 @@ def canary(v):
     for i in ("canary-bound-cv", "canary-bound-hmacreq", "canary-image-blocks"):
         rej.setdefault(i, (0, 0, "soft:" + "+".join(soft[i])))
     must_accept = set(good_ids) | {"canary-bound-good", "canary-parse-good", "canary-parse-raised-tamper"}
-    must_reject = {t["id"] for t in bad} | {"canary-bound-addr", "canary-bound-data", "canary-bound-cv", "canary-bound-hmacreq", "canary-parse-cmd",
+    must_reject = {t["id"] for t in bad} | {"canary-bound-addr", "canary-bound-data", "canary-bound-cv", "canary-bound-hmacreq", "canary-bound-keys", "canary-parse-cmd",
                                             "canary-parse-raised-clean", "canary-parse-tamper-different"}
     if (must_accept & set(rej)) or (must_reject - set(rej)):
         raise Machinery(f"canary failed: wrongly rejected {[(i, rej[i]) for i in sorted(must_accept & set(rej))]}, "
@@ -785,13 +786,12 @@ def _run(tier, sp, v, r, quick, mc_future):
     stride = max(1, len(chosen) // n_tamper_files)
     for i, s in enumerate(chosen):
         g = concretise(s, i, rng(PROP, "file", i), plain_tour, residue_tour, sp.ks_ids, [1, 3, 6] if quick else [1, 3, 6, 20, 60])
-        single = len(s["secs"]) == 1
         jobs.append({"g": g, "tamper": (2 if quick else 3) if (i % stride == 0) else 0})
     # exhaustive bit flips over one small file per version (strided in the quick tier)
     for ver in ("21", "20s", "20u"):
         s = {"ver": ver, "sha": ver == "21", "chain": "none" if ver == "20u" else "k0", "secs": [{"hm": 2, "cmds": [0, 1, 0]}]}
         g = concretise(s, len(jobs), rng(PROP, "allbits", ver), plain_tour, residue_tour, sp.ks_ids, [1])
-        jobs.append({"g": g, "tamper": 0, "all_bits": (r.randrange(48), 48) if quick else (r.randrange(2), 2)})
+        jobs.append({"g": g, "tamper": 0, "all_bits": (r.randrange(48), 48) if quick else (0, 1)})
     results = pmap(lambda job: process(sp, job), jobs, chunksize=2)
     traces = [t for res in results for t in res["traces"]]
     by_idx = {j["g"]["idx"]: j["g"] for j in jobs}
@@ -817,6 +817,9 @@ def _run(tier, sp, v, r, quick, mc_future):
     for t in clean:
         idx, ver, who = t["idx"], t["ver"], "ROM model" if t["kind"] == "rom" else "parse()"
         if t["id"] not in rej_clean:
+            last = t["ev"][-1]
+            if (t["kind"] == "rom" and last["ev"] != "Accept") or (t["kind"] == "parse" and last["ev"] != "PEnd"):
+                raise Machinery(f"trace {t['id']} was consumed by TLC but does not end in Accept / PEnd: {short(last)}")
             v.nontrivial((t["kind"], res_by_idx[idx].get("sha", idx)))
         else:
             matched, length, evname = rej_clean[t["id"]]
@@ -826,9 +829,9 @@ def _run(tier, sp, v, r, quick, mc_future):
         for name in soft_clean.get(t["id"], []):
             if t["kind"] == "rom":
                 g = t["given"]
-                detail = {"clause": name, "given": {k: g[k] for k in ("ver", "flags", "pv", "cv", "build", "ts", "nonceCtr")},
+                detail = {"clause": name, "given": {k: g[k] for k in ("ver", "flags", "pv", "cv", "build", "ts", "nonce")},
                           "secs_given": [{"uid": s["uid"], "hmacReq": s["hmacReq"]} for s in g["secs"]],
-                          "header_in_file": {k: x for k, x in t["ev"][0].items() if k in ("minor", "flags", "pv", "cv", "build", "ts", "nonceCtr", "fileBlocks", "imageBlocks", "firstTag")},
+                          "header_in_file": {k: x for k, x in t["ev"][0].items() if k in ("minor", "flags", "pv", "cv", "build", "ts", "nonce", "fileBlocks", "imageBlocks", "firstTag")},
                           "sections_in_file": [{"uid": e["uid"], "hmacCount": e["hmacCount"], "count": e["count"]} for e in t["ev"] if e["ev"] == "SectionTag"]}
             else:
                 detail = {"clause": name, "parsed": [short(e) for e in t["ev"] if e["ev"] == "PField"], "file": {k: x for k, x in t["ref"].items() if k != "secs"}}
@@ -861,6 +864,10 @@ def _run(tier, sp, v, r, quick, mc_future):
     dc = tamper_stats.get("rom/tamper/dontcare_filler")
     if dc and dc["rejected"]:
         raise Machinery("a flip in the declared don't-care filler of an unsigned SB 2.0 file was rejected: the don't-care declaration is stale")
+    v.extra["trusted_base"] = ("executor harness/c04_rom.py: struct, hashlib (SHA-256), hmac, bit-serial/table CRC-32/MPEG-2 (self-tested), and `cryptography` "
+                               "primitives called directly: AES-ECB block function (CTR is built in the executor), RFC 3394 unwrap, X.509 DER parsing, RSA PKCS#1 v1.5 "
+                               "verification; golden files of the reference tool in anchors/C04 anchor the automaton; nothing from spsdk.crypto / spsdk.sbfile")
+    v.extra["checker_cmd"] = "tlc2.TLC -config Sb2RomMC*.cfg Sb2RomMC.tla (MC), -config Sb2RomGen*.cfg (GEN), -config Sb2RomTrace.cfg Sb2RomTrace.tla (TV)"
     v.extra["tamper"] = tamper_stats
     v.extra["tamper_rejected"] = sum(s["rejected"] for k, s in tamper_stats.items() if k.startswith("rom/"))
     v.extra["files"] = {"built": n_built, "bytes": sum(res["len"] for res in results)}
@@ -937,7 +944,7 @@ def replay(path):
         names = [n for n in soft.get(t["id"], []) if n not in ignore]
         if names:
             say(f"clauses FALSE: {t['id']} {names}")
-            bad = bad or ("soft" not in w) or (w["soft"] in names)
+            bad = bad or ("soft" in w and w["soft"] in names) or bool(w.get("tamper"))
     if bad:
         say(f"VIOLATION property=C04 replay={path}")
         return 1
